@@ -536,12 +536,7 @@ func (s String) LaxEqual(other Value) bool {
 
 	switch other.ValueFlag() {
 	case CHAR_FLAG:
-		ch, ok := s.ToChar()
-		if !ok {
-			return false
-		}
-
-		return ch == other.AsChar()
+		return s == String(other.AsChar())
 	default:
 		return false
 	}
